@@ -238,6 +238,76 @@ End Run.
 End Memo.
 
 (* ------------------------------------------------------------------------------------------ *)
+(* the memoising operations obey the discipline                                                 *)
+(* ------------------------------------------------------------------------------------------ *)
+Section MemoOpsP.
+Variable V R : Type.
+Variable memo : N -> option V.
+Variable base : store V.
+Variable f : N -> list (option V) -> V.
+Variable stop : list V -> option R.
+Variable fin : list V -> R.
+Variable err : R.
+Notation ok := (ok memo base).
+
+Lemma ok_read_all : forall ks acc (cont : list (option V) -> prog V R) kn r,
+  (forall x, In x ks -> memo x = None) ->
+  ok kn (cont (rev acc ++ map base ks)) r -> ok kn (read_all ks acc cont) r.
+Proof.
+  induction ks as [|k ks IH]; intros acc cont kn r Hm H; cbn [read_all].
+  - cbn in H. rewrite app_nil_r in H. exact H.
+  - apply ok_get_imm; [apply Hm; left; reflexivity|].
+    apply IH; [intros x Hx; apply Hm; right; exact Hx|].
+    cbn [rev]. rewrite <- app_assoc. exact H.
+Qed.
+
+Lemma ok_memo_compute : forall k ks g (cont : V -> prog V R) kn r,
+  memo k = Some (g (map base ks)) -> (forall x, In x ks -> memo x = None) ->
+  (forall kn', ok kn' (cont (g (map base ks))) r) ->
+  ok kn (memo_compute k ks g err cont) r.
+Proof.
+  intros k ks g cont kn r M Hm Hc. unfold memo_compute.
+  eapply ok_get_memo; [exact M| |apply Hc].
+  apply ok_read_all; [exact Hm|]. cbn [rev app].
+  eapply ok_put; [exact M|].
+  eapply ok_get_known; [exact M| |apply Hc].
+  unfold addk. rewrite N.eqb_refl. reflexivity.
+Qed.
+
+Definition table_ok (l : list (N * list N)) : Prop :=
+  forall k ks, In (k, ks) l -> memo k = Some (f k (map base ks)) /\ forall x, In x ks -> memo x = None.
+
+Theorem ok_memo_seq : forall l, table_ok l ->
+  forall acc kn, ok kn (memo_seq f stop fin err l acc) (pure_seq f stop fin base l acc).
+Proof.
+  induction l as [|[k ks] l IH]; intros T acc kn; cbn [memo_seq pure_seq].
+  - constructor.
+  - destruct (T k ks (or_introl eq_refl)) as [M Hm].
+    apply ok_memo_compute; [exact M|exact Hm|].
+    intro kn'. destruct (stop (f k (map base ks) :: acc)) as [r|]; [constructor|].
+    apply IH. intros k' ks' Hin. apply T. right. exact Hin.
+Qed.
+
+(* any number of threads, each consulting its own sequence of memoised values on the shared store:
+   under every schedule every finished thread holds the pure function of the immutable data *)
+Theorem memo_ops_confluent : forall (ls : nat -> list (N * list N)) (s0 : store V),
+  (forall i, table_ok (ls i)) -> consistent memo base s0 ->
+  forall sched i r,
+    result (exec sched (init (fun j => memo_seq f stop fin err (ls j) []) s0)) i = Some r ->
+    r = pure_seq f stop fin base (ls i) [].
+Proof.
+  intros ls s0 T C sched i r H.
+  pose (ps := fun j => memo_seq f stop fin err (ls j) []).
+  pose (rs := fun j => pure_seq f stop fin base (ls j) []).
+  assert (Hok : forall j, ok nothing (ps j) (rs j)) by (intro j; apply ok_memo_seq, T).
+  destruct (memo_confluence V R memo base ps rs s0 Hok C (fun _ _ => true) (fun _ => eq_refl) sched) as [H1 _].
+  rewrite (H1 i r H).
+  apply (solo_ok V R memo base (ps i) nothing (rs i) s0 (Hok i) C).
+  intros k Hk. discriminate.
+Qed.
+End MemoOpsP.
+
+(* ------------------------------------------------------------------------------------------ *)
 (* ownership: part-file writers                                                                 *)
 (* ------------------------------------------------------------------------------------------ *)
 Section Own.
@@ -484,4 +554,40 @@ Lemma rebuild_refuted_3 :
 Proof.
   eexists. split; [vm_compute; reflexivity|].
   exists [0; 1]. vm_compute. split; [reflexivity|]. split; [reflexivity|]. left. reflexivity.
+Qed.
+
+(* ------------------------------------------------------------------------------------------ *)
+(* the repaired code: a derived handle takes the parent's helper and writes nothing              *)
+(* ------------------------------------------------------------------------------------------ *)
+(* After the fix, ParquetFile.__getitem__ -> _set_attrs(helper) only READS the shared tree.  Thread 0
+   derives handles (reads the root), all other threads look a column up.  For EVERY schema (any write
+   log ws of schema_tree), every column of the root and EVERY schedule the lookup succeeds. *)
+Definition slicer_fixed : prog (list N) N := Get 0%N (fun _ => Ret 0%N).
+Definition repaired_pool (name : N) : pool (list N) N :=
+  fun i => match i with 0 => slicer_fixed | _ => reader name end.
+
+Theorem rebuild_repaired : forall (ws : wlog) (ks : list N) (name : N),
+  built ws 0%N = Some ks -> existsb (N.eqb name) ks = true ->
+  forall sched,
+    (forall i r, result (exec sched (init (repaired_pool name) (built ws))) i = Some r -> r = 0%N) /\
+    Forall (fun k => k <> KDestructiveWrite) (kinds list_eqb sched (init (repaired_pool name) (built ws))) /\
+    (forall k, c_store (exec sched (init (repaired_pool name) (built ws))) k = built ws k).
+Proof.
+  intros ws ks name Hb Hn sched.
+  pose (memo := fun _ : N => @None (list N)).
+  assert (Hok : forall i, ok memo (built ws) nothing (repaired_pool name i) 0%N).
+  { intros [|i]; cbn.
+    - apply ok_get_imm; [reflexivity|constructor].
+    - unfold reader. apply ok_get_imm; [reflexivity|]. rewrite Hb, Hn. constructor. }
+  assert (C : consistent memo (built ws) (built ws)) by (intro k; reflexivity).
+  assert (Hrefl : forall a : list N, list_eqb a a = true).
+  { intro a. unfold list_eqb. destruct (list_eq_dec N.eq_dec a a) as [E|E]; [reflexivity|contradiction]. }
+  destruct (memo_confluence _ _ memo (built ws) (repaired_pool name) (fun _ => 0%N) (built ws) Hok C list_eqb Hrefl sched)
+    as [H1 [H2 [H3 H4]]].
+  split; [|split].
+  - intros i r H. rewrite (H1 i r H).
+    apply (solo_ok _ _ memo (built ws) (repaired_pool name i) nothing 0%N (built ws) (Hok i) C).
+    intros k Hk. discriminate.
+  - exact H2.
+  - intro k. specialize (H4 k). cbn in H4. exact H4.
 Qed.
